@@ -452,7 +452,17 @@ def check(ctx):
     ok = body == ['returnparse_expression(%s,self.species2index,self.params2index)' % a[0]]
     ctx.ob('R2.1-users', 'growth-law/Model.parse_general_expression', ok, ctx.loc('types', f),
            "parse_general_expression compiles the string over the model's species and parameter dictionaries", str(body))
-    ctx.floor('R2.1-users', 10)
+    # "evaluates to the same real value as the written formula" whenever it is compiled and evaluated: compilation and evaluation
+    # keep no state between calls (no cache of compiled trees, no memo in a node) - C08 R8.7, re-emitted here
+    from . import c08
+    for m_ in ('random', 'lineage', 'lineage.pxd', 'inference'):
+        ctx.prog.mod(m_)
+    sub = SubCtx(ctx)
+    c08.check_pure_evaluation(sub)
+    for rule, key, ok, where, what, detail in sub.got:
+        if rule == 'R8.7-pure-evaluation' and key in ('methods', 'module-state'):
+            ctx.ob('R2.1-users', '%s/%s' % (rule, key), ok, where, what, detail)
+    ctx.floor('R2.1-users', 12)
     ctx.floor('R2.1-node-semantics', 28)
     ctx.floor('R2.2-translation', 9)
     ctx.floor('R2.3-rejection', 3)
